@@ -24,9 +24,15 @@ product of the dimensions it names, all other dimensions at a base value (family
   H history    on ONE parser object: every listing API -> one query (of 19) for something the table does not contain (absent
                locale / config / key / type / id / package) -> every listing API again, and the same without the first
                listing round; the listings must still describe the table (thorough: two queries)
-  E pairs      14 global dimensions (packages, type set, entry presence, configuration set, staggered configurations, entry
+  O order      container orders the format leaves free: 3 types x 2 entries x the 4 configurations, type chunks of a type in
+               EVERY one of the 24 configuration orders x chunk order {typeSpec+types grouped, all typeSpecs first,
+               type chunks interleaved across types} x chunk encoding x {1, 2} packages
+  M maxima     one representative at the large end of each field the writer controls: entry index 0x0233 (sparse / dense /
+               off16, with a compact entry), key index > 255 and > 0xFFFF boundary for compact keys, type id 255, strings of
+               127/128/0x7FFF (UTF-8) and 0x7FFF/0x8000 (UTF-16) units, 40 packages-worth of unused pool prefix
+  E pairs      16 global dimensions (packages, type set, entry presence, configuration set, staggered configurations, entry
                kind profile, flags, chunk encoding incl. mixed per configuration, pool encodings, ResTable_config size
-               28..64, trimmed trailing holes, unused pool prefix, type-id gap, entry-area layout): every pair of values of every pair of
+               28..64, trimmed trailing holes, unused pool prefix, type-id gap, entry-area layout, chunk order, configuration order): every pair of values of every pair of
                dimensions around two base vectors (thorough: every triple around the first base)
 """
 import itertools
@@ -37,7 +43,7 @@ PROPERTY = "C28"
 LEVEL = "exploration"
 RULE = ("union of five full products over a resource-table grammar (A presence matrices x chunk encodings, B entry-kind "
         "pairs per type x encodings x configs x flags, C reference chains x locations x config sets, D type subsets x "
-        "packages x pool encodings, E all pairs of 14 global dimensions); every table is serialised, parsed and queried "
+        "packages x pool encodings, O all 24 configuration orders x chunk orders, M field maxima, E all pairs of 16 global dimensions); every table is serialised, parsed and queried "
         "for every resource id x {all configs, each stored config}; non-trivial = table with a hole, a non-dense chunk, a "
         "non-plain entry, a reference, >1 configuration or >1 package; distinct = distinct table specification")
 ASSUMPTIONS = [
@@ -131,7 +137,8 @@ def table_from_spec(spec):
             if isinstance(enc, dict):
                 enc = {_cfg(c, size): v for c, v in enc.items()}
             types.append(G.Type(t["n"], entries, enc, bool(t.get("trim")), t.get("lay", "index")))
-        pkgs.append(G.Package(p["id"], p["name"], types, bool(p.get("tu8", 0)), bool(p.get("ku8", 1))))
+        pkgs.append(G.Package(p["id"], p["name"], types, bool(p.get("tu8", 0)), bool(p.get("ku8", 1)),
+                              p.get("corder", "grouped"), p.get("cfgorder", "first")))
     return G.Table(pkgs, bool(spec.get("utf8", 1)), ["unused%d" % i for i in range(spec.get("prefix", 0))])
 
 
@@ -409,8 +416,10 @@ E_DIMS = [
     ("prefix", [0, 3]),
     ("gap", [0, 1]),
     ("layout", ["index", "reversed", "rotated"]),
+    ("corder", ["grouped", "specs-first", "interleaved"]),
+    ("cfgorder", ["first", "reversed", "rotated"]),
 ]
-E_BASES = [[0] * len(E_DIMS), [1, 4, 6, 3, 1, 2, 1, 2, 1, 5, 1, 1, 1, 1]]
+E_BASES = [[0] * len(E_DIMS), [1, 4, 6, 3, 1, 2, 1, 2, 1, 5, 1, 1, 1, 1, 2, 1]]
 
 
 def fam_e(ctx):
@@ -444,6 +453,7 @@ def build_e(p):
     if v["pkgs"] == 2:
         pkgs.append(_grid_pkg(cells, 0x02, "com.lib", v["types"][::-1], *args, 0, pkgs))
     for pk in pkgs:
+        pk["corder"], pk["cfgorder"] = v["corder"], v["cfgorder"]
         for t in pk["types"]:
             t["lay"] = v["layout"]
     return {"pkgs": pkgs, "utf8": pool[0], "csize": v["csize"], "prefix": v["prefix"]}
@@ -547,7 +557,7 @@ def judge_history(spec, queries, with_a):
     data = G.serialise(table)
     ref = RR.RefResolver(table)
     out = []
-    a = axml.ARSCParser(data)
+    a = axml.ARSCParser(data)           # (no decoy here: this family is a history on one object by itself)
     model = _listing_model(ref)
     rid, p, t, e = next(iter(table.iter_entries()))
     x = {"pkg": p.name, "key": e.key, "rid": rid, "type": t.name,
@@ -582,8 +592,69 @@ def judge_history(spec, queries, with_a):
     return out, data
 
 
+def fam_o(ctx):
+    for perm in itertools.permutations(range(4)):
+        for corder in ("grouped", "specs-first", "interleaved"):
+            for enc in ENCS:
+                for npk in (1, 2):
+                    yield ("O", list(perm), corder, enc, npk)
+
+
+def build_o(p):
+    _f, perm, corder, enc, npk = p
+    cells = _Cells()
+    tn = ["string", "integer", "array"]
+    pkgs = [_grid_pkg(cells, 0x7F, "com.a", tn, 2, 3, CFGS, 1, "mixed", 0, enc, POOLS[0], 0, 0)]
+    if npk == 2:
+        pkgs.append(_grid_pkg(cells, 0x02, "com.lib", tn[::-1], 2, 3, CFGS, 0, "refs", 0, enc, POOLS[0], 0, 0, pkgs))
+    for pk in pkgs:
+        pk["corder"], pk["cfgorder"] = corder, list(perm)
+    return {"pkgs": pkgs}
+
+
+M_CASES = ["bigindex", "manykeys", "typeid255", "longstrings8", "longstrings16", "bigprefix"]
+
+
+def fam_m(ctx):
+    for case in M_CASES:
+        for enc in (ENCS if case != "bigprefix" else ENCS[:1]):
+            yield ("M", case, enc)
+
+
+def build_m(p):
+    _f, case, enc = p
+    cells = _Cells()
+    cfgs = ["", "en"]
+    spec = {"pkgs": [{"id": 0x7F, "name": "com.a", "types": []}]}
+    types = spec["pkgs"][0]["types"]
+    if case == "bigindex":
+        n = 0x0234
+        e = [None] * n
+        for i, kind in ((0, "p-str"), (1, "c-str"), (0x00FF, "c-int"), (0x0100, "p-int"), (n - 2, "c-str"), (n - 1, "p-ref")):
+            e[i] = _entry(cells, "k%d" % i, kind, cfgs if i % 2 else [""], 0, (0, 0, 0))
+        types.append({"n": "string", "enc": enc, "e": e})
+    elif case == "manykeys":
+        # 300 keys: key indices above 255 (a compact entry keeps its key index in 16 bits)
+        e = [_entry(cells, "key_%03d" % i, ("p-str", "c-str", "p-int", "c-int")[i % 4], [""] if i % 7 else cfgs) for i in range(300)]
+        types.append({"n": "string", "enc": enc, "e": e})
+    elif case == "typeid255":
+        types += [{"n": "t%d" % i, "e": []} for i in range(1, 255)]
+        types.append({"n": "string", "enc": enc, "e": [_entry(cells, "a", "p-str", cfgs), _entry(cells, "b", "c-str", cfgs),
+                                                        _entry(cells, "c", "p-ref", cfgs, 0, (0, 254, 0))]})
+    elif case in ("longstrings8", "longstrings16"):
+        lens = [127, 128, 0x7FFF] if case == "longstrings8" else [0x7FFF, 0x8000, 0x8001]
+        spec["utf8"] = 1 if case == "longstrings8" else 0
+        e = [{"k": "s%d" % i, "f": 0, "v": {"": ["p", ["s", ("%05d" % n) + "x" * (n - 5)]]}} for i, n in enumerate(lens)]
+        e.append({"k": "s_uni", "f": 0, "v": {"": ["c", ["s", "\u00fc" * 130]]}})      # UTF-16 length 130, UTF-8 length 260
+        types.append({"n": "string", "enc": enc, "e": e})
+    else:
+        spec["prefix"] = 70000          # value pool indices above 0xFFFF
+        types.append({"n": "string", "enc": enc, "e": [_entry(cells, "a", "p-str", cfgs), _entry(cells, "b", "c-str", cfgs)]})
+    return spec
+
+
 FAMILIES = {"A": (fam_a, build_a, 24), "B": (fam_b, build_b, 8), "C": (fam_c, build_c, 16), "D": (fam_d, build_d, 8),
-            "E": (fam_e, build_e, 8), "H": (fam_h, build_h, 8)}
+            "E": (fam_e, build_e, 8), "H": (fam_h, build_h, 8), "O": (fam_o, build_o, 4), "M": (fam_m, build_m, 3)}
 
 
 # ---------------------------------------------------------------------------------------------------------------------
@@ -649,6 +720,11 @@ def _extras(spec, ref, rid=None, wanted=False):
         ex.add("csize")
     if spec.get("prefix"):
         ex.add("prefix")
+    for p in spec["pkgs"]:
+        if p.get("corder", "grouped") != "grouped":
+            ex.add("chunks=" + p["corder"])
+        if p.get("cfgorder", "first") != "first":
+            ex.add("cfgorder")
     scope = spec["pkgs"]
     types = [t for p in scope for t in p["types"]]
     if rid is not None:
@@ -686,9 +762,9 @@ def make_key(aspect, feature, extras):
 def split_key(key):
     parts = key.split("|")
     # the feature itself may contain '|' between kinds; extras are the trailing tokens from a closed vocabulary
-    vocab = ("pkgs2", "pools", "csize", "prefix", "flags", "multicfg", "trim", "typegap", "holes", "wanted")
+    vocab = ("pkgs2", "pools", "csize", "prefix", "flags", "multicfg", "trim", "typegap", "holes", "wanted", "cfgorder")
     ex = []
-    while len(parts) > 1 and (parts[-1] in vocab or parts[-1].startswith(("enc=", "layout="))):
+    while len(parts) > 1 and (parts[-1] in vocab or parts[-1].startswith(("enc=", "layout=", "chunks="))):
         ex.append(parts.pop())
     return "|".join(parts), frozenset(ex)
 
@@ -707,11 +783,87 @@ def _words(c):
     return (c.imsi, c.locale, c.screenType, c.input, c.screenSize, c.version, c.screenConfig, c.screenSizeDp, c.screenConfig2)
 
 
+def decoy_spec(spec):
+    """A small table that re-uses the judged table's package names, type names, key names, lowest resource ids and
+    configurations with OTHER values: per package the first two non-empty types, per type the first two entries (holes kept),
+    per entry the first two configurations; strings get a suffix, other values another data word, references stay."""
+    import copy
+
+    def val(v):
+        if v[0] == "s":
+            v[1] = v[1] + "~decoy"
+        elif v[0] == "r":
+            v[2] = (v[2] ^ 0x00010100) & 0xFFFFFFFF if v[1] != 0x12 else (0 if v[2] else 0xFFFFFFFF)
+    d = {k: v for k, v in spec.items() if k != "pkgs"}
+    d["prefix"] = 0
+    d["pkgs"] = []
+    for p in spec["pkgs"]:
+        q = {k: v for k, v in p.items() if k != "types"}
+        q["types"] = []
+        full = 0
+        for t in p["types"]:
+            if not t["e"] or full >= 2:
+                q["types"].append({"n": t["n"], "e": []})
+                continue
+            full += 1
+            u = {k: v for k, v in t.items() if k != "e"}
+            u["e"] = []
+            for e in t["e"][:2]:
+                if e is None:
+                    u["e"].append(None)
+                    continue
+                f = {"k": e["k"], "f": e.get("f", 0), "v": copy.deepcopy(dict(list(e["v"].items())[:2]))}
+                for x in f["v"].values():
+                    if x[0] == "x":
+                        for _n, v in x[2]:
+                            val(v)
+                    else:
+                        val(x[1])
+                u["e"].append(f)
+            if not any(u["e"]):
+                u["e"] = []
+            q["types"].append(u)
+        while q["types"] and not q["types"][-1]["e"]:
+            q["types"].pop()
+        d["pkgs"].append(q)
+    return d
+
+
+_DECOY_BYTES = {}
+
+
+def run_decoy(spec, axml, G):
+    """DECOY HISTORY: parse and query a different table that uses the same names and ids in the same process first (results
+    ignored).  A cache that survives from one ARSCParser to the next (module / class level, keyed by package name, resource
+    id, key or pool index) then shows up as a violation of the table judged afterwards -- also in the fresh-process replay,
+    because the decoy runs inside judge()."""
+    try:
+        ds = decoy_spec(spec)
+        key = repr(ds)
+        raw = _DECOY_BYTES.get(key)
+        if raw is None:
+            if len(_DECOY_BYTES) > 4096:
+                _DECOY_BYTES.clear()
+            raw = _DECOY_BYTES[key] = G.serialise(table_from_spec(ds))      # only the BYTES are memoised; every decoy is parsed anew
+        d = axml.ARSCParser(raw)
+        for p in d.get_packages_names():
+            for l in d.get_locales(p)[:2]:
+                d.get_types(p, l)
+                d.get_string_resources(p, l)
+            d.get_type_configs(p)
+        for rid in list(d.resource_values)[:4]:
+            d.get_resolved_res_configs(rid)
+            d.get_resource_xml_name(rid)
+    except Exception:       # noqa  -- the decoy is not judged
+        pass
+
+
 def judge(spec):
     """Returns a list of (key, message) violations for one table."""
     from androguard.core import axml
     from gen import arscgen as G
     from ref import resolver as RR
+    run_decoy(spec, axml, G)
     table = table_from_spec(spec)
     data, pool = G.build(table)
     ref = RR.RefResolver(table)
@@ -749,6 +901,28 @@ def judge(spec):
                 got1 = {k: sorted(_words(c) for c in v) for k, v in a.get_type_configs(p.name, tn).items()}
                 if got1 != {tn: want[tn]}:
                     bad("type_configs", "package", pex, "get_type_configs(%r, %r) = %r, table has %r" % (p.name, tn, got1, want[tn]))
+            # alternative entry points: the XML dumps have to tell the same story as the per-id / per-key lookups
+            import re as _re
+            for l in sorted(ref.get_locales(p.name)):
+                want_pub = sorted((t.name, e.key, rid) for rid, (pp, t, e) in ref.res.items()
+                                  if pp is p and any(ref.locale_of(c) == l for c in e.values))
+                got_pub = sorted((m[0], m[1], int(m[2], 16)) for m in _re.findall(
+                    r'<public type="([^"]*)" name="([^"]*)" id="(0x[0-9a-fA-F]{8})" />', a.get_public_resources(p.name, l).decode("utf-8")))
+                if got_pub != want_pub:
+                    bad("public_xml", "package", pex, "get_public_resources(%r, %r) lists %r, table has %r" % (p.name, l, got_pub, want_pub))
+                want_str, judged = {}, True
+                for rid, (pp, t, e) in ref.res.items():
+                    if pp is p and t.name == "string":
+                        for c, ev in e.values.items():
+                            if ref.locale_of(c) == l:
+                                if ev.kind == "complex" or ev.value[0] != "str":
+                                    judged = False      # reference-valued strings: spelling in the dump is not fixed by the property
+                                else:
+                                    want_str[e.key] = ev.value[1]
+                if judged:
+                    got_str = dict(_re.findall(r'<string name="([^"]*)">(.*?)</string>\n', a.get_string_resources(p.name, l).decode("utf-8"), _re.S))
+                    if got_str != want_str:
+                        bad("string_xml", "package", pex, "get_string_resources(%r, %r) lists %r, table has %r" % (p.name, l, got_str, want_str))
         except Exception as e:      # noqa
             bad("listing-exception", "package", pex, "listing of package %r raised %s: %s" % (p.name, type(e).__name__, e))
             return out, data
@@ -770,6 +944,18 @@ def judge(spec):
                 got = a.get_res_id_by_key(p.name, t.name, e.key)
                 if got != rid:
                     bad("id_by_key", feature, ex0, "get_res_id_by_key(%r, %r, %r) = %r, expected 0x%08x" % (p.name, t.name, e.key, got, rid))
+                # get_id per locale / get_resource_xml_name (looks the id up in the default locale)
+                for l in sorted(ref.get_locales(p.name)):
+                    stored = any(ref.locale_of(c) == l for c in e.values)
+                    got = tuple(a.get_id(p.name, rid, l))
+                    want = (t.name, e.key, rid) if stored else (None, None, None)
+                    if got != want:
+                        bad("get_id", feature, ex0, "get_id(%r, 0x%08x, %r) = %r, table has %r" % (p.name, rid, l, got, want))
+                if any(ref.locale_of(c) == RR.DEFAULT_LOCALE for c in e.values):
+                    got = (a.get_resource_xml_name(rid), a.get_resource_xml_name(rid, p.name))
+                    want = ("@%s:%s/%s" % (p.name, t.name, e.key), "@%s/%s" % (t.name, e.key))
+                    if got != want:
+                        bad("xml_name", feature, ex0, "get_resource_xml_name(0x%08x[, %r]) = %r, table has %r" % (rid, p.name, got, want))
                 if t.name == "string":
                     for l in ref.get_locales(p.name):
                         try:
@@ -903,6 +1089,10 @@ def space(ctx):
             "E": {"dimensions": {n: len(a) for n, a in E_DIMS}, "bases": E_BASES,
                   "order": "all pairs around both bases" + ("; all triples around base 0" if ctx.thorough else "")},
         },
+        "O": "24 configuration orders x 3 chunk orders x 3 encodings x {1,2} packages (3 types, 2 entries, 4 configurations)",
+        "M": {"cases": M_CASES, "x": ENCS},
+        "decoy": "before every table: the same table with all values changed is parsed and queried in the same process",
+        "alternative_entry_points": ["get_id per locale", "get_resource_xml_name", "get_public_resources XML", "get_string_resources XML"],
         "H": {"histories": "on one parser object: (all listings) -> query -> all listings; and: query -> all listings",
               "tables": "family A n<=2 dense (270) + family D single/pair/full type sets x {1,2} packages (58)",
               "queries": [q for q, _f in QUERIES], "depth": 2 if ctx.thorough else 1,
